@@ -94,12 +94,11 @@ type coordSim struct {
 	stats map[string]int64
 	buf   map[string][]bufLine
 	pviol []pendViol
-	// ground truth used for known-finding keys
-	replicaChanged map[string]bool
-	layoutPanic    bool
-	operatorCmds   int
-	inTail         bool
-	tailStart      time.Time
+	// ground truth used for known-finding keys and tail exclusions
+	layoutPanic  bool
+	operatorCmds int
+	inTail       bool
+	tailStart    time.Time
 
 	pd       *pdnode_coord.PDCoordinator
 	isLeader bool
@@ -171,6 +170,9 @@ func drawCoordCfg(c *core.RunCtx) coordCfg {
 			g.w[i] = 0
 		}
 	}
+	if os.Getenv("PDSIM_NO_OPERATOR") != "" { // debugging aid: no operator commands
+		g.w[evMarkRemoving], g.w[evReplicaChange], g.w[evUpgrade] = 0, 0, 0
+	}
 	if t.Choose(4) == 0 { // plain node up/down histories only
 		for i := evRegFlap; i < evCount; i++ {
 			g.w[i] = 0
@@ -198,7 +200,7 @@ func runCoord(c *core.RunCtx) {
 	}()
 	s := &coordSim{c: c, t: c.Tape, metas: map[string]*cluster.NamespaceMetaInfo{}, parts: map[string]map[int]*part{},
 		kv: map[string]string{}, dnodes: map[string]*dnode{}, byHost: map[string]*dnode{}, stats: map[string]int64{},
-		buf: map[string][]bufLine{}, replicaChanged: map[string]bool{}}
+		buf: map[string][]bufLine{}}
 	s.cfg = drawCoordCfg(c)
 	synctest.Test(c.T, func(t *testing.T) { s.run() })
 	dumpMemLog()
@@ -293,6 +295,9 @@ func (s *coordSim) flushLocked() {
 	if len(s.pviol) > 0 {
 		sort.SliceStable(s.pviol, func(i, j int) bool { return s.pviol[i].msg < s.pviol[j].msg })
 		for _, v := range s.pviol {
+			if v.key != "" {
+				s.c.Count("known."+v.key, 1)
+			}
 			s.c.Violate("C18", v.rule, v.key, "%s", v.msg)
 		}
 		s.pviol = nil
@@ -377,11 +382,7 @@ func (s *coordSim) checkWriteLocked(p *part, nv *cluster.PartitionReplicaInfo, o
 		seen[n] = true
 	}
 	if !(2*len(isr) > replica) {
-		key := ""
-		if s.replicaChanged[p.ns] {
-			key = "isr-minority-after-replica-change"
-		}
-		s.violLocked("isr-majority", key, "%d remaining replicas are not a strict majority of replication factor %d: %s", len(isr), replica, where)
+		s.violLocked("isr-majority", "", "%d remaining replicas are not a strict majority of replication factor %d: %s", len(isr), replica, where)
 	}
 	// (3) replacements one at a time, only when the current replicas report in sync
 	if prev != nil {
@@ -442,11 +443,7 @@ func (s *coordSim) checkWriteLocked(p *part, nv *cluster.PartitionReplicaInfo, o
 				}
 			}
 			if 2*down > len(prev.RaftNodes) {
-				key := ""
-				if s.replicaChanged[p.ns] {
-					key = "removal-majority-down-after-replica-change"
-				}
-				s.violLocked("removal-majority-unreachable", key, "replica %s marked for removal while %d of %d replicas are unreachable (%v): %s",
+				s.violLocked("removal-majority-unreachable", "", "replica %s marked for removal while %d of %d replicas are unreachable (%v): %s",
 					nshort(k), down, len(prev.RaftNodes), dl, where)
 			}
 			s.stats["probe.removal_marked"]++
@@ -853,6 +850,10 @@ func (s *coordSim) run() {
 		stopped = true
 		pd.Stop()
 		synctest.Wait()
+		// detached helper goroutines of the coordinator (delayed check triggers,
+		// requests sleeping in a simulated timeout) end within seconds of fake time
+		time.Sleep(15 * time.Second)
+		synctest.Wait()
 	}
 	defer stop()
 
@@ -1133,11 +1134,6 @@ func (s *coordSim) event(kind int) {
 			s.operatorCmds++
 			err := s.pd.ChangeNamespaceMetaParam(ns, nr, "", 0)
 			c.Log("replicachange", "%s -> %d: %v", ns, nr, err)
-			if err == nil {
-				s.mu.Lock()
-				s.replicaChanged[ns] = true
-				s.mu.Unlock()
-			}
 		}
 	case evUpgrade:
 		s.upgrade = !s.upgrade
@@ -1246,8 +1242,6 @@ func (s *coordSim) tail() {
 		return
 	}
 	c.Count("tail_runs_checked", 1)
-	// bound: 2 simulated hours with the shortened (test) intervals of the
-	// coordinator, scaled for the longer interval sets
 	bound := tailBound(g.intervals)
 	chunk := g.step
 	deadline := now.Add(bound)
@@ -1288,7 +1282,8 @@ func (s *coordSim) tail() {
 			//     handle the second failure while a removal is pending);
 			// (B) the balancer is observed polling for a node it added to become ready
 			//     (it waits without limit, holding the balance lock, and no pending
-			//     removal anywhere is finished while that lock is held);
+			//     removal anywhere is finished and no surplus replica dropped while
+			//     that lock is held);
 			// (C) the simulator suppressed a layout computation that would have
 			//     crashed the coordinator (reported separately as pd-crash).
 			balancerWaits := s.balancerWaitsLocked(bound)
@@ -1304,7 +1299,9 @@ func (s *coordSim) tail() {
 						downISR++
 					}
 				}
-				if len(p.cur.Removings) != 1 {
+				// what the balance lock blocks: finishing a pending removal and
+				// dropping the surplus replica of an over-replicated partition
+				if len(p.cur.Removings) != 1 && len(p.cur.RaftNodes) <= s.metas[p.ns].Replica {
 					allPending = false
 				}
 				if !(len(p.cur.Removings) == 1 && downISR > 0) {
@@ -1326,6 +1323,9 @@ func (s *coordSim) tail() {
 				nodes = append(nodes, fmt.Sprintf("%s up=%v reg=%v oprm=%v", nshort(d.info.ID), d.up, d.registered, d.opRemoving))
 			}
 			s.mu.Unlock()
+			if key != "" {
+				c.Count("known."+key, 1)
+			}
 			c.Violate("C18", "tail-liveness", key, "no faults for %s but partitions are not back to full replication: %v; nodes: %v", bound, stuck, nodes)
 			break
 		}
